@@ -117,6 +117,7 @@ func TestVerifC07Sched(t *testing.T) {
 	res := ev.New("C07", "sched")
 	defer res.Write()
 	log.Info("warm up the logger outside the bubble")
+	schedQuiet()
 	sched.StartWatchdog(60 * time.Second)
 	bound := 2
 	if ev.Thorough() {
